@@ -499,3 +499,47 @@ def definite_assignment_over(repo: Repo, rr, classes: Iterable[Cls], entries: It
                            "`%s` is read at line %s but some path reaches that line without assigning it: %s"
                            % (name, ", ".join(str(n.lineno) for n in nodes[:3]), consequence), nodes[0].lineno)
     return rr
+
+
+# ---------------------------------------------------------------- dispatch on string constants
+def const_test_truth(test: ast.AST, key: str) -> Optional[bool]:
+    """Truth of `<var> == 'c'` / `!=` / `in (...)` / `not in (...)` (possibly under `not`) when <var> is `key`."""
+    neg = False
+    while isinstance(test, ast.UnaryOp) and isinstance(test.op, ast.Not):
+        test, neg = test.operand, not neg
+    truth = None
+    if isinstance(test, ast.Compare) and len(test.ops) == 1:
+        c = test.comparators[0]
+        l = test.left
+        if isinstance(l, ast.Constant) and isinstance(l.value, str) and not isinstance(c, ast.Constant):
+            l, c = c, l
+        if isinstance(c, ast.Constant) and isinstance(c.value, str):
+            if isinstance(test.ops[0], ast.Eq):
+                truth = key == c.value
+            elif isinstance(test.ops[0], ast.NotEq):
+                truth = key != c.value
+        elif isinstance(c, (ast.Tuple, ast.List, ast.Set)) and all(isinstance(e, ast.Constant) for e in c.elts):
+            vals = [e.value for e in c.elts]
+            if isinstance(test.ops[0], ast.In):
+                truth = key in vals
+            elif isinstance(test.ops[0], ast.NotIn):
+                truth = key not in vals
+    if truth is None:
+        return None
+    return (not truth) if neg else truth
+
+
+def flatten_dispatch(stmts: Sequence[ast.stmt], key: str, var: Optional[str] = None) -> List[ast.stmt]:
+    """The statements executed for the option value `key`: every `if` whose test compares (the variable `var`, when
+    given) with string constants is resolved for that value, recursively, wherever it sits in the block."""
+    out: List[ast.stmt] = []
+    for st in stmts:
+        if isinstance(st, ast.If) and (var is None or var in norm(st.test)):
+            t = const_test_truth(st.test, key)
+            if t is not None:
+                out.extend(flatten_dispatch(st.body if t else st.orelse, key, var))
+                if any(isinstance(x, (ast.Raise, ast.Return)) for x in out[-1:]):
+                    break
+                continue
+        out.append(st)
+    return out
